@@ -60,6 +60,11 @@ CLAIMED = {
    note="Assumed: filters answer one of the five documented statuses and neither they nor the status handler touch the chain's bookkeeping (contract on the interface / function parameter); filter objects in one chain are pairwise distinct. Not covered: the phase machine of downStream.receive as a whole, chooseHost short-circuits, the three concrete filters, goroutine hand-off.",
    technique="contract-based deductive verification (WP over go/ssa, SMT) with ghost call counters and sequence stamps",
    design="5/C14"),
+ "C13": dict(
+   text="Proof level on the selection and mode logic: GetConfigForClient returns, for every provider list and ClientHello, the context of the first ready provider matching the SNI, else of the first ready provider whose ALPN set matches, else of the first ready provider, and ErrorNoCertConfigure iff none is ready (unbounded loop invariants over ghost-free first-match clauses); GetClientAuth is the 4-row truth table of (verify_client, require_client_cert); Enabled/Conn serve plaintext on a TLS-enabled TCP listener only in inspector mode; the manager copies the inspector flag at construction and a listener update installs the new flag before it rebuilds the manager (call-site obligation).",
+   note="Assumed: TLSProvider.Ready/MatchedServerName/MatchedALPN are pure reads (spec functions); NewProvider (x509, SDS, hooks) leaves the manager under construction alone; Conn.Peek returns at least one byte on success. Not covered: the handshake itself (forked crypto/tls, chain building), wildcard-label generalisation inside MatchedServerName, upstream verification/insecure_skip.",
+   technique="contract-based deductive verification (WP over go/ssa, SMT) against interface contracts with spec functions",
+   design="5/C13"),
 }
 NA = {
  "C11": "quantifies over the arrival time of a signal relative to in-flight requests across two processes (fd passing, drain timers): crash points and schedules of the whole runtime; no function whose pre/postcondition states it (DESIGN.md section 6)",
